@@ -386,4 +386,108 @@ theorem results_getD (v : SVar) (i : Nat) : v.results.getD i 0 = v.nominal * v.x
   simp only [List.getD_eq_getElem?_getD, List.getElem?_map]
   cases v.xs[i]? <;> simp
 
+/-! ### windows and end points (additivity of `integral`) -/
+
+theorem inWindow_cons (a b : Rat) (k : Rat × Rat) (K : Knots) :
+    inWindow a b (k :: K) = if a ≤ k.1 ∧ k.1 ≤ b then k :: inWindow a b K else inWindow a b K := by
+  unfold inWindow
+  rw [List.filter_cons]
+  by_cases h : a ≤ k.1 ∧ k.1 ≤ b <;> simp [h]
+
+theorem inWindow_append (a b : Rat) (K L : Knots) :
+    inWindow a b (K ++ L) = inWindow a b K ++ inWindow a b L := by
+  simp [inWindow]
+
+theorem inWindow_eq_nil_of_gt (a b : Rat) (K : Knots) (h : ∀ k ∈ K, b < k.1) : inWindow a b K = [] := by
+  unfold inWindow
+  rw [List.filter_eq_nil_iff]
+  intro k hk
+  have := h k hk
+  simp [not_le.2 this]
+
+theorem inWindow_eq_nil_of_lt (a b : Rat) (K : Knots) (h : ∀ k ∈ K, k.1 < a) : inWindow a b K = [] := by
+  unfold inWindow
+  rw [List.filter_eq_nil_iff]
+  intro k hk
+  have := h k hk
+  simp [not_le.2 this]
+
+theorem inWindow_congr_left (a a' b : Rat) (K : Knots) (h : ∀ k ∈ K, a ≤ k.1 ∧ a' ≤ k.1) :
+    inWindow a b K = inWindow a' b K := by
+  unfold inWindow
+  apply List.filter_congr
+  intro k hk
+  simp [(h k hk).1, (h k hk).2]
+
+/-- splitting a window at a knot: the knots of `[a, c]` are the knots of `[a, b]` followed by the
+    knots of `[b, c]` without their first one (the shared knot at `b`) -/
+theorem inWindow_split (a b c : Rat) (K : Knots) (hs : Sorted K) (hab : a ≤ b) (hbc : b ≤ c)
+    (kb : Rat × Rat) (hkb : kb ∈ K) (hb : kb.1 = b) :
+    ∃ pre post, inWindow a b K = pre ++ [kb] ∧ inWindow b c K = kb :: post ∧
+      inWindow a c K = pre ++ kb :: post := by
+  induction K with
+  | nil => cases hkb
+  | cons k K ih =>
+    have hgt := Sorted.head_lt hs
+    rcases List.mem_cons.1 hkb with rfl | hmem
+    · -- the head is the knot at b; everything after it is later than b
+      have hK : ∀ x ∈ K, b < x.1 := fun x hx => hb ▸ hgt x hx
+      refine ⟨[], inWindow b c K, ?_, ?_, ?_⟩
+      · rw [inWindow_cons, inWindow_eq_nil_of_gt a b K hK]
+        simp [hb, hab]
+      · rw [inWindow_cons]
+        simp [hb, hbc]
+      · rw [inWindow_cons]
+        have : a ≤ kb.1 ∧ kb.1 ≤ c := ⟨hb ▸ hab, hb ▸ hbc⟩
+        simp only [this, and_self, if_true, List.nil_append]
+        congr 1
+        exact inWindow_congr_left a b c K (fun x hx => ⟨le_trans hab (le_of_lt (hK x hx)), le_of_lt (hK x hx)⟩)
+    · have hk : k.1 < b := hb ▸ hgt kb hmem
+      obtain ⟨pre, post, h1, h2, h3⟩ := ih (Sorted.tail hs) hmem
+      have hnb : ¬ (b ≤ k.1 ∧ k.1 ≤ c) := fun h => absurd h.1 (not_le.2 hk)
+      by_cases hak : a ≤ k.1
+      · refine ⟨k :: pre, post, ?_, ?_, ?_⟩
+        · rw [inWindow_cons]; simp [hak, le_of_lt hk, h1]
+        · rw [inWindow_cons]; simp only [hnb, if_false]; exact h2
+        · rw [inWindow_cons]; simp [hak, le_trans (le_of_lt hk) hbc, h3]
+      · refine ⟨pre, post, ?_, ?_, ?_⟩
+        · rw [inWindow_cons]; simp [hak, h1]
+        · rw [inWindow_cons]; simp only [hnb, if_false]; exact h2
+        · rw [inWindow_cons]; simp [hak, h3]
+
+
+
+theorem hasTime_inWindow (a b t : Rat) (K : Knots) (h1 : a ≤ t) (h2 : t ≤ b) :
+    hasTime (inWindow a b K) t = hasTime K t := by
+  unfold hasTime inWindow
+  rw [List.any_filter]
+  congr 1
+  funext k
+  by_cases h : k.1 = t
+  · simp [h, h1, h2]
+  · simp [h]
+
+theorem EndOK_unique (p : Prob) (name : String) (i1 i2 : Knots) (t : Rat) (x1 x2 : Knots)
+    (h : hasTime i1 t = hasTime i2 t) (e1 : EndOK p name i1 t x1) (e2 : EndOK p name i2 t x2) :
+    x1 = x2 := by
+  rcases e1 with ⟨h1, rfl⟩ | ⟨h1, q1, hq1, rfl⟩ <;> rcases e2 with ⟨h2, rfl⟩ | ⟨h2, q2, hq2, rfl⟩
+  · rfl
+  · rw [h, h2] at h1; cases h1
+  · rw [h, h2] at h1; cases h1
+  · rw [hq1] at hq2
+    cases hq2
+    rfl
+
+theorem EndOK_of_hasTime (p : Prob) (name : String) (inner : Knots) (t : Rat) (x : Knots)
+    (h : hasTime inner t = true) (e : EndOK p name inner t x) : x = [] := by
+  rcases e with ⟨_, rfl⟩ | ⟨h1, _⟩
+  · rfl
+  · rw [h] at h1; cases h1
+
+theorem hasTime_of_mem (K : Knots) (k : Rat × Rat) (hk : k ∈ K) : hasTime K k.1 = true := by
+  unfold hasTime
+  rw [List.any_eq_true]
+  exact ⟨k, hk, by simp⟩
+
+
 end RtcVerif.C15
